@@ -266,6 +266,7 @@ func loadKEK(spec string) (tink.AEAD, error) {
 }
 
 func TestC03Fixtures(t *testing.T) {
+	h.FirstShardOnly(t)
 	rec := h.NewRec("C03", "fixtures", "committed database files written by the pinned tree (fixtures/*.db, contents recorded in fixtures/*.json): must open with identical contents, untouched, counters intact; each file is one non-trivial case")
 	defer rec.Flush()
 	metas, _ := filepath.Glob(filepath.Join(fixturesDir(), "*.meta.json"))
